@@ -421,6 +421,88 @@ func (r *c10Run) step(ctx context.Context, raw json.RawMessage) {
 		if r.guarded("Rm", func() { err = r.reg.RemoveEndpoint(ctx, r.eps[id].URLString) }) {
 			r.b.Emit("Rm", "e", id, "err", err != nil)
 		}
+	case "Burst":
+		// two successful discoveries of the same endpoint, the second issued as soon as the first
+		// returned (its asynchronous merge may still be pending)
+		id := zzverif.Str(args[0])
+		l1, l2 := c10Entries(args[1]), c10Entries(args[2])
+		r.rig.be[id].script(c10Resp{status: 200, listing: l1}, c10Resp{status: 200, listing: l2})
+		var e1, e2 error
+		if r.guarded("Burst", func() { e1 = r.discover(ctx, id); e2 = r.discover(ctx, id) }) {
+			if r.unified {
+				if e1 == nil {
+					r.expected++
+				}
+				if e2 == nil {
+					r.expected++
+				}
+			}
+			r.b.Emit("Burst", "e", id, "L1", l1, "L2", l2, "err1", e1 != nil, "err2", e2 != nil)
+		}
+	case "Par":
+		// operations on pairwise distinct endpoints, released together
+		var toks map[string]json.RawMessage
+		if err := json.Unmarshal(args[0], &toks); err != nil {
+			panic(fmt.Sprintf("bad Par %s: %v", args[0], err))
+		}
+		type pop struct {
+			Op  string     `json:"op"`
+			E   string     `json:"e"`
+			K   string     `json:"k"`
+			L   []c10Entry `json:"L"`
+			Err bool       `json:"err"`
+		}
+		ids := make([]string, 0, len(toks))
+		for id := range toks {
+			ids = append(ids, id)
+		}
+		sort.Strings(ids)
+		ops := make([]pop, len(ids))
+		for i, id := range ids {
+			n, a := zzverif.Tok(toks[id])
+			o := pop{Op: n, E: id, L: []c10Entry{}}
+			switch n {
+			case "Reg":
+				o.L = c10Entries(a[1])
+				r.rig.be[id].script(c10Resp{status: 200, listing: o.L})
+			case "Fail":
+				o.K = zzverif.Str(a[1])
+				o.L = c10Entries(a[2])
+				r.rig.be[id].script(c10FailResp(o.K, o.L))
+			case "Rm":
+			default:
+				panic("unknown Par op " + n)
+			}
+			ops[i] = o
+		}
+		errs := make([]error, len(ops))
+		ok := r.guarded("Par", func() {
+			var wg sync.WaitGroup
+			start := make(chan struct{})
+			for i := range ops {
+				wg.Add(1)
+				go func(i int) {
+					defer wg.Done()
+					<-start
+					if ops[i].Op == "Rm" {
+						errs[i] = r.reg.RemoveEndpoint(ctx, r.eps[ops[i].E].URLString)
+					} else {
+						errs[i] = r.discover(ctx, ops[i].E)
+					}
+				}(i)
+			}
+			close(start)
+			wg.Wait()
+		})
+		if ok {
+			for i := range ops {
+				ops[i].Err = errs[i] != nil
+				if errs[i] == nil && ops[i].Op != "Rm" && r.unified {
+					r.expected++
+				}
+			}
+			r.b.Emit("Par", "ops", ops)
+		}
 	default:
 		panic("unknown op " + name)
 	}
